@@ -25,13 +25,23 @@ def g(*args):
     return ("g", args)
 
 
-KEYS = ["a", ("t", 0)]
-ENV = {"a": ("val-a",), ("t", 0): ("val-t0",)}
+KEYSETS = [["a", ("t", 0)], [0, ""]]  # the second set: legal but FALSY keys
+KEYS = list(KEYSETS[0])
+ENV = {}
+
+
+def use_keyset(i):
+    KEYS[:] = KEYSETS[i]
+    ENV.clear()
+    ENV.update({KEYS[0]: ("val-a",), KEYS[1]: ("val-t0",)})
+
+
+use_keyset(0)
 
 
 def RULE(tier):
     return (
-        f"legacy graphs {{'a': .., ('t',0): .., 'out': EXPR}} for EVERY expression EXPR of depth <= {DEPTH[tier]} over: key 'a', tuple key ('t',0), int, non-key string, "
+        f"legacy graphs {{'a': .., ('t',0): .., 'out': EXPR}} for EVERY expression EXPR of depth <= {DEPTH[tier]} over two key sets ({'a', ('t',0)} and the falsy keys {0, ''}): int, non-key string, "
         "pure-data tuple, literal(key-like), quote(task-like), call f/g with 0-2 arguments, two-element list, one-entry dict; evaluated by dask.get, dask.core.get (if present), "
         "threaded.get and convert_legacy_graph+execute_graph; dependencies of the converted node == syntactically referenced keys; pickle round trip keeps dependencies and value. "
         "Task-object graphs: every node built from Task/Alias/DataNode/TaskRef/List/Tuple/Set/Dict by the same grammar, called on the dependency values. non-trivial = expression references a key."
@@ -182,14 +192,14 @@ def run_legacy(e, ctx):
     import dask.threaded
     from dask._task_spec import convert_legacy_graph, execute_graph
 
-    case = ("legacy", e)
+    case = ("legacy", e, KEYSETS.index(list(KEYS)))
     ctx.case(case, nontrivial=bool(refs(e)), outcome=e[0])
     want = ref_eval(e)
     cls = known_class(e) if has_dict(e) else None
     suffix = f":{cls}" if cls else ""
 
     def graph():
-        return {"a": ("val-a",), ("t", 0): (lambda: ("val-t0",),), "out": to_legacy(e)}
+        return {KEYS[0]: ("val-a",), KEYS[1]: (lambda: ("val-t0",),), "out": to_legacy(e)}
 
     runners = [("dask.get", lambda: dask.get(graph(), "out")), ("threaded.get", lambda: dask.threaded.get(graph(), "out", num_workers=2))]
     runners.append(("execute_graph", lambda: execute_graph(convert_legacy_graph(graph()), keys={"out"})["out"]))
@@ -250,7 +260,7 @@ def check_pickle(node, case, ctx, suffix, tag):
 def run_nodes(e, ctx):
     from dask._task_spec import Alias, GraphNode, execute_graph
 
-    case = ("nodes", e)
+    case = ("nodes", e, KEYSETS.index(list(KEYS)))
     ctx.case(case, nontrivial=bool(refs(e)), outcome=e[0])
     node = to_nodes(e, key="out")
     want = ref_eval(e)
@@ -282,11 +292,16 @@ def run_shard(shard, ctx):
             continue
         if ctx.out_of_time():
             return
-        if kind == "legacy":
-            ctx.guard(("legacy", e), run_legacy, e, ctx)
-        else:
-            ctx.guard(("nodes", e), run_nodes, e, ctx)
+        for ks in (0, 1):
+            use_keyset(ks)
+            if kind == "legacy":
+                ctx.guard(("legacy", e, ks), run_legacy, e, ctx)
+            else:
+                ctx.guard(("nodes", e, ks), run_nodes, e, ctx)
+        use_keyset(0)
 
 
 def replay(case, ctx):
+    use_keyset(case[2] if len(case) > 2 else 0)
     (run_legacy if case[0] == "legacy" else run_nodes)(case[1], ctx)
+    use_keyset(0)
